@@ -18,7 +18,7 @@ import (
 	"pgregory.net/rapid"
 )
 
-const c08Rule = "rapid-generated cases = history over one index (8 ids + 6 batch-only ids + warm-up ids, dim 3): VAdd with metadata / VSetMetadata merges (same-type and type-changing overwrites over strings, JSON numbers, booleans, lists of strings) / VDelete / re-add / vacuum / VAddBatch and VImport(+SaveSnapshot) of 1-5 items (non-live ids, some items without metadata; index with ef_construction 200, or 8 with an optional warm-up of 9 or 41 single adds so that batches / imports take the parallel insert path of the graph), interleaved with SaveSnapshot, RewriteAOF, VCompress, Close+Open and closed by one of 7 tails (none; restart; snapshot+restart; rewrite+restart; compress; compress+restart; all of them in a row) x 2-4 filter ASTs (OR of AND-blocks of `key op literal`, op in = != < <= > >=, mixed-case keywords, quoted/unquoted literals, alternative number spellings) rendered to text. After EVERY step every filter is sent to VFilter (limit 1000) and to VSearch (k=64) and compared with an independent evaluator of the documented semantics over the model's current metadata (exact id set; VSearch: subset); steps that do not change metadata (vacuum, snapshot, rewrite, compress, restart) must leave every answer unchanged. NON-TRIVIAL = some filter with >= 2 clauses has, at some step, a truth set that is neither empty nor all live ids."
+const c08Rule = "rapid-generated cases = history over one index (8 ids + 6 batch-only ids + warm-up ids, dim 3): VAdd with metadata / VSetMetadata merges (same-type and type-changing overwrites over strings, JSON numbers, booleans, lists whose elements are strings / JSON numbers / booleans / a mixture) / VDelete / re-add / vacuum / VAddBatch and VImport(+SaveSnapshot) of 1-5 items (non-live ids, some items without metadata; index with ef_construction 200, or 8 with an optional warm-up of 9 or 41 single adds so that batches / imports take the parallel insert path of the graph), interleaved with SaveSnapshot, RewriteAOF, VCompress, Close+Open and closed by one of 7 tails (none; restart; snapshot+restart; rewrite+restart; compress; compress+restart; all of them in a row) x 2-4 filter ASTs (OR of AND-blocks of `key op literal`, op in = != < <= > >=, mixed-case keywords, quoted/unquoted literals, alternative number spellings) rendered to text. After EVERY step every filter is sent to VFilter (limit 1000) and to VSearch (k=64) and compared with an independent evaluator of the documented semantics over the model's current metadata (exact id set; VSearch: subset; list membership: a numeric element is selected by its plain decimal literal, a boolean element by true / false); steps that do not change metadata (vacuum, snapshot, rewrite, compress, restart) must leave every answer unchanged. NON-TRIVIAL = some filter with >= 2 clauses has, at some step, a truth set that is neither empty nor all live ids."
 
 type c08Stats struct {
 	Labels     map[string]bool
@@ -55,7 +55,49 @@ func c08Plan(c c08Case) c08Stats {
 	if c.EfC > 0 {
 		st.l(fmt.Sprintf("index:efC=%d", c.EfC))
 	}
+	// nonStringHit: which = / != clauses of the case currently select a NUMERIC or BOOLEAN list element of some
+	// live vector ("=", "!=", and the same inside an AND block / an OR of blocks)
+	nonStringHit := func() []string {
+		seen := map[string]bool{}
+		for _, f := range c.Filters {
+			for _, b := range f.Blocks {
+				for _, cl := range b {
+					if cl.Op != "=" && cl.Op != "!=" {
+						continue
+					}
+					hit := false
+					for _, meta := range m.Live {
+						l, _ := meta[cl.Key].([]any)
+						for _, e := range l {
+							if _, isStr := e.(string); !isStr {
+								if must, _ := c08EqElem(e, cl); must {
+									hit = true
+								}
+							}
+						}
+					}
+					if hit {
+						seen[cl.Op] = true
+						if len(b) > 1 {
+							seen[cl.Op+"-inside-AND"] = true
+						}
+						if len(f.Blocks) > 1 {
+							seen[cl.Op+"-inside-OR"] = true
+						}
+					}
+				}
+			}
+		}
+		out := make([]string, 0, len(seen))
+		for k := range seen {
+			out = append(out, k)
+		}
+		return out
+	}
 	check := func() {
+		for _, h := range nonStringHit() {
+			st.l("filter:" + h + ":selects-non-string-list-element")
+		}
 		for _, f := range c.Filters {
 			must, may := c08Expect(m, f)
 			if len(must) != len(may) {
@@ -149,8 +191,20 @@ func c08Plan(c c08Case) c08Stats {
 			if m.hasList() {
 				st.l("way:compress-with-list")
 			}
+			if m.hasNonStringList() {
+				st.l("way:compress-with-non-string-list")
+				for _, h := range nonStringHit() {
+					st.l("way:compress-with-non-string-list:filter:" + h + ":selects-such-element")
+				}
+			}
 		case "restart":
 			st.l("way:restart-from-" + base)
+			if m.hasNonStringList() {
+				st.l("way:restart-from-" + base + "-with-non-string-list")
+				for _, h := range nonStringHit() {
+					st.l("way:restart-from-" + base + "-with-non-string-list:filter:" + h + ":selects-such-element")
+				}
+			}
 			if tail && base != "log" {
 				st.l("way:restart-from-" + base + "+log-tail")
 			}
@@ -164,6 +218,13 @@ func c08Plan(c c08Case) c08Stats {
 		}
 		if m.hasList() {
 			st.l("has-list-values")
+			for _, meta := range m.Live {
+				for _, v := range meta {
+					if cl := c08ListClass(v); cl != "" {
+						st.l("has-list-values:" + cl)
+					}
+				}
+			}
 		}
 		if !op.Quiet {
 			check()
